@@ -30,10 +30,17 @@ RULE = ("Homogeneous domain: 1-4 distinct equilibria of a pool of 17 acid/base/c
         "in arbitrary (unsorted) order, two varied keys handed over in substance order or reversed; every grid point "
         "flagged success-and-sane is judged like a single solve against its own initial state (base state with the "
         "varied entries replaced), the axes being the ones chempy names (result.varied_keys), and the result arrays "
-        "must have one entry per grid point.  "
+        "must have one entry per grid point.  'root_x0': root(init_concs, x0=ndarray in substance order) on the "
+        "homogeneous domain (1-3 equilibria; chains (Lin,), default, (Log, Lin)) with a guess whose element/charge totals "
+        "differ from those of init_concs - init_concs scaled by 10^+-[0.1, 1], a random positive vector 10^U(-6, 0), the "
+        "default-chain solution of another random initial state - or the solution itself; 'root_options': root() with "
+        "rref_equil, rref_preserv, neqsys_type (chained_conditional, conditional_chained, static_conditions), tol (1e-8, "
+        "1e-10, 1e-12) and method (default, lm), a third of the cases also with a scaled / random x0; both judged against "
+        "init_concs exactly like a plain solve (a guess that does not converge is inconclusive).  "
         "Non-trivial = at least two equilibria sharing a species and success reported; a precipitation case that "
         "ends with solid present, or a near-saturation case that starts supersaturated and ends without solid; a "
-        "series with at least two judged grid points; distinct by case digest.")
+        "series with at least two judged grid points; a root() success with a non-default option or with a guess whose "
+        "totals differ from the initial state's; distinct by case digest.")
 ASSUMPTIONS = ["vlib/gen_c07.py COMP table and pool reactions (asserted balanced at import)",
                "the oracle evaluates Q and the totals of the returned float64 vector with mpmath (30 digits), so the "
                "judgement itself adds no rounding",
@@ -114,87 +121,176 @@ def _last_stage(info):
         return None
 
 
-def solver_own_residual(own, chain, nr, index, mag=None):
-    """What the solver itself saw, as a relative number, for equilibrium `index` (mag None) or for the conservation row
-    `index` (mag = sum|terms|).  Layout of f (rref off): nr equilibrium rows, then one row per sorted composition key.
-    Lin rows are q/k - 1, Log rows ln q - ln k, conservation rows are absolute differences."""
-    rec = own() if own is not None else None
-    if rec is None:
-        return None
-    fun = rec["fun"]
-    kind = _CHAIN_KINDS[chain][-1]
-    try:
-        if mag is None:
-            v = fun[index]
-            return abs(v) if kind == "Lin" else abs(math.expm1(v))
-        return abs(fun[nr + index]) / mag if mag > 0 else None
-    except (IndexError, OverflowError):
-        return None
+def _rref(rows):
+    """Exact reduced row echelon form (Fractions).  -> (R: the non-zero rows, pivots: their pivot columns).  The RREF of
+    a matrix is unique, so this is the matrix pyneqsys.symbolic.linear_rref (sympy) arrives at; with L = the pivot
+    columns of the original matrix, original = L . R."""
+    from fractions import Fraction
+    m = [[Fraction(v) for v in r] for r in rows]
+    piv, rk = [], 0
+    for c in range(len(m[0]) if m else 0):
+        p = next((r for r in range(rk, len(m)) if m[r][c] != 0), None)
+        if p is None:
+            continue
+        m[rk], m[p] = m[p], m[rk]
+        m[rk] = [v / m[rk][c] for v in m[rk]]
+        for r in range(len(m)):
+            if r != rk and m[r][c] != 0:
+                f = m[r][c]
+                m[r] = [u - f * v for u, v in zip(m[r], m[rk])]
+        piv.append(c)
+        rk += 1
+    return m[:rk], piv
 
 
-def lsq_stationarity(kind, species, nets, Ks, c0, xs):
-    """|J^T f| / (|J|_2 |f|) at the returned point for the residual vector of the last stage as *this module* models it
-    (Lin: rows Q/K - 1 in the variables c; Log: rows ln Q - ln K in the variables ln c; then one row per composition
-    key, total - initial total).  ~0 means the point is a stationary point of the sum of squares MINPACK's lm
-    minimises (a local minimiser that is not a root); ~1 means the residual is not even locally minimal.  None when
-    it cannot be evaluated (a zero concentration where a logarithm or a negative power is needed).  Used only to
-    *classify* a failure for the known-finding matcher."""
-    import numpy as np
-    try:
-        c = np.array([float(v) for v in xs])
+class Layout(object):
+    """This module's model of the residual vector the last solver stage works on: equilibrium rows (Lin: Q/K - 1 in
+    the variables c; Log: ln Q - ln K in the variables ln c), then conservation rows (total - initial total, one per
+    sorted composition key).  rref_equil / rref_preserv replace a block by its reduced row echelon form (rows
+    R = RREF(M) and, with L = pivot columns of M, M = L . R), so that the solver's residual for the *original* row i
+    is sum_j L[i][j] * (its residual for reduced row j) - for Lin equilibrium rows in logarithms.
+    Used only to *classify* an established failure for the known-finding matcher."""
+
+    def __init__(self, kind, species, nets, Ks, rref_equil=False, rref_preserv=False):
+        self.kind, self.species = kind, list(species)
+        N = [[net.get(sp, 0) for sp in species] for net in nets]
+        self.lnK = [math.log(k) for k in Ks]
+        self.keys = G.comp_keys(species)
+        B = [[G.COMP[sp].get(k, 0) for sp in species] for k in self.keys]
+        if rref_equil:
+            self.A, piv = _rref(N)
+            self.LA = [[row[c] for c in piv] for row in N]
+            # R lnK: the reduced right-hand side, from N = LA . A and full row rank of the pool (lnK = LA . rb)
+            aug, _ = _rref([row + [int(i == j) for j in range(len(N))] for i, row in enumerate(N)])
+            T = [row[len(species):] for row in aug[:len(self.A)]]
+            self.rb = [sum(float(t) * lk for t, lk in zip(row, self.lnK)) for row in T]
+        else:
+            self.A, self.LA, self.rb = N, None, list(self.lnK)
+        if rref_preserv:
+            self.P, piv = _rref(B)
+            self.LP = [[row[c] for c in piv] for row in B]
+        else:
+            self.P, self.LP = B, None
+        self.ne = len(self.A)
+
+    def own_equil(self, fun, i):
+        """|Q/K - 1| of original equilibrium i as the solver saw it."""
+        vals = fun[:self.ne]
+        if self.kind == "Lin":
+            vals = [math.log1p(v) for v in vals]
+        v = vals[i] if self.LA is None else sum(float(l) * w for l, w in zip(self.LA[i], vals))
+        return abs(math.expm1(v))
+
+    def own_cons(self, fun, k, mag):
+        vals = fun[self.ne:self.ne + len(self.P)]
+        v = vals[k] if self.LP is None else sum(float(l) * w for l, w in zip(self.LP[k], vals))
+        return abs(v) / mag if mag > 0 else None
+
+    def residual_and_jacobian(self, c0, xs):
+        import numpy as np
+        c = [float(v) for v in xs]
         rows_f, rows_J = [], []
-        for net, k in zip(nets, Ks):
-            row = np.zeros(len(species))
-            if kind == "Log":
-                if any(c[species.index(s)] <= 0 for s in net):
-                    return None
-                rows_f.append(sum(n * math.log(c[species.index(s)]) for s, n in net.items()) - math.log(k))
-                for s, n in net.items():
-                    row[species.index(s)] = n
+        for arow, rb in zip(self.A, self.rb):
+            a = [float(v) for v in arow]
+            if any(c[i] <= 0 for i in range(len(c)) if a[i] != 0 and (self.kind == "Log" or a[i] < 0)):
+                return None
+            row = [0.0] * len(c)
+            if self.kind == "Log":
+                rows_f.append(sum(a[i] * math.log(c[i]) for i in range(len(c)) if a[i] != 0) - rb)
+                row = a
             else:
-                if any(c[species.index(s)] == 0 for s, n in net.items() if n < 0):
-                    return None
                 q = 1.0
-                for s, n in net.items():
-                    q *= c[species.index(s)] ** n
-                rows_f.append(q / k - 1)
-                for s, n in net.items():
-                    rest = 1.0
-                    for s2, n2 in net.items():
-                        rest *= c[species.index(s2)] ** (n2 - 1 if s2 == s else n2)
-                    row[species.index(s)] = n * rest / k
+                for i in range(len(c)):
+                    if a[i] != 0:
+                        q *= c[i] ** a[i]
+                rows_f.append(q / math.exp(rb) - 1)
+                for i in range(len(c)):
+                    if a[i] == 0:
+                        continue
+                    if c[i] > 0:
+                        row[i] = a[i] * q / math.exp(rb) / c[i]
+                    elif a[i] == 1:
+                        rest = 1.0
+                        for j in range(len(c)):
+                            if j != i and a[j] != 0:
+                                rest *= c[j] ** a[j]
+                        row[i] = rest / math.exp(rb)
+                    elif a[i] < 1:
+                        return None
             rows_J.append(row)
-        for key in G.comp_keys(species):
-            b = np.array([G.COMP[s].get(key, 0) for s in species], dtype=float)
-            rows_f.append(float(b.dot(c) - b.dot(np.array([c0[s] for s in species]))))
-            rows_J.append(b * c if kind == "Log" else b)
-        f, J = np.array(rows_f), np.array(rows_J)
-        nf, nJ = float(np.linalg.norm(f)), float(np.linalg.norm(J, 2))
-        if not (nf > 0 and nJ > 0 and math.isfinite(nf) and math.isfinite(nJ)):
+        for prow in self.P:
+            b = [float(v) for v in prow]
+            rows_f.append(sum(b[i] * c[i] for i in range(len(c))) - sum(b[i] * c0[sp] for i, sp in enumerate(self.species)))
+            rows_J.append([b[i] * c[i] for i in range(len(c))] if self.kind == "Log" else b)
+        return np.array(rows_f), np.array(rows_J)
+
+    def stationarity(self, c0, xs):
+        """|J^T f| / (|J|_2 |f|) at the returned point: ~0 means a stationary point of the sum of squares MINPACK's lm
+        minimises (a local minimiser that is not a root); ~1 means the residual is not even locally minimal.  None
+        when it cannot be evaluated (a zero concentration where a logarithm or a negative power is needed)."""
+        import numpy as np
+        try:
+            fj = self.residual_and_jacobian(c0, xs)
+            if fj is None:
+                return None
+            f, J = fj
+            nf, nJ = float(np.linalg.norm(f)), float(np.linalg.norm(J, 2))
+            if not (nf > 0 and nJ > 0 and math.isfinite(nf) and math.isfinite(nJ)):
+                return None
+            return float(np.linalg.norm(J.T.dot(f)) / (nJ * nf))
+        except (ZeroDivisionError, OverflowError, ValueError, FloatingPointError):
             return None
-        return float(np.linalg.norm(J.T.dot(f)) / (nJ * nf))
-    except (ZeroDivisionError, OverflowError, ValueError, FloatingPointError):
-        return None
 
 
-def failure_signature(own, chain, species, nets, Ks, c0, xs, dev, index, mag=None):
+def failure_signature(own, chain, species, nets, Ks, c0, xs, dev, index, mag=None, opts=None):
     """Classification of a non-genuine success-and-sane result for the known-finding matcher (D10 family):
-    solver_own_residual   the solver's own residual for the violated equation (relative), see solver_own_residual();
-    own_over_oracle       that number divided by the oracle's deviation: ~1 means the solver evaluated the same
-                          residual as the oracle and saw the error (the residual function itself is intact);
+    solver_own_residual   the solver's own residual (last stage of the chain) for the violated equation, relative:
+                          |Q/K - 1| for equilibrium `index` (mag None), |total - total0| / mag for conservation row
+                          `index`;
+    own_over_oracle       that number divided by the oracle's deviation (with rref_equil / rref_preserv: 1 + the
+                          relative distance between the solver's whole residual vector and this module's): ~1 means
+                          the solver evaluated the same residual as the oracle and saw the error (the residual
+                          function itself is intact);
     last_stage_success    the innermost record of the last stage (what MINPACK returned through pyneqsys) itself
                           claims convergence, i.e. the success flag was relayed, not invented on the way out;
-    lsq_stationarity      see lsq_stationarity()."""
-    res = solver_own_residual(own, chain, len(nets), index, mag)
-    rec = own() if (own is not None and res is not None) else None
-    kind = _CHAIN_KINDS[chain][-1] if chain in _CHAIN_KINDS else None
-    return {"solver_own_residual": res,
-            "own_over_oracle": (res / dev) if (res is not None and dev) else None,
-            "last_stage_success": rec["success"] if rec else None,
-            "lsq_stationarity": lsq_stationarity(kind, species, nets, Ks, c0, xs) if kind else None}
+    lsq_stationarity      Layout.stationarity()."""
+    out = {"solver_own_residual": None, "own_over_oracle": None, "last_stage_success": None, "lsq_stationarity": None}
+    if chain not in _CHAIN_KINDS:
+        return out
+    opts = opts or {}
+    try:
+        lay = Layout(_CHAIN_KINDS[chain][-1], species, nets, Ks, bool(opts.get("rref_equil")), bool(opts.get("rref_preserv")))
+    except (ValueError, ZeroDivisionError, OverflowError):
+        return out
+    out["lsq_stationarity"] = lay.stationarity(c0, xs)
+    rec = own() if own is not None else None
+    if rec is None:
+        return out
+    try:
+        res = lay.own_equil(rec["fun"], index) if mag is None else lay.own_cons(rec["fun"], index, mag)
+    except (IndexError, OverflowError, ValueError):
+        res = None
+    out["solver_own_residual"] = res
+    if res is not None:
+        out["last_stage_success"] = rec["success"]
+        if lay.LA is None and lay.LP is None:
+            out["own_over_oracle"] = (res / dev) if dev else None
+        else:
+            # reduced layouts: mapping the solver's rows back to the violated original row loses digits (a Lin row
+            # q/k - 1 = -1 + 1e-14 carries two digits of q/k), so the agreement is measured where nothing is lost:
+            # 1 + max|solver's residual vector - this module's residual vector at x| / max|this module's|
+            try:
+                fm = lay.residual_and_jacobian(c0, xs)
+                if fm is not None and len(fm[0]) == len(rec["fun"]):
+                    top = max(abs(float(v)) for v in fm[0])
+                    if top > 0 and math.isfinite(top):
+                        out["own_over_oracle"] = 1.0 + max(abs(float(a) - float(b)) for a, b in zip(rec["fun"], fm[0])) / top
+            except (ZeroDivisionError, OverflowError, ValueError):
+                pass
+    return out
 
 
-def judge_common(ctx, species, x, c0, detail, own=None, chain=None, nets=(), Ks=()):
+def judge_common(ctx, species, x, c0, detail, own=None, chain=None, nets=(), Ks=(), opts=None):
     """Non-negativity, finiteness and conservation.  Returns False when a failure was reported."""
     import mpmath
     xs = [float(v) for v in x]
@@ -223,7 +319,7 @@ def judge_common(ctx, species, x, c0, detail, own=None, chain=None, nets=(), Ks=
             mag = sum(abs(G.COMP[s].get(k, 0)) * (mpmath.mpf(conc[s]) + mpmath.mpf(c0[s])) for s in species) / 2
             if abs(t1 - t0) > CONS_RTOL * mag:
                 rel = float(abs(t1 - t0) / mag)
-                sig = failure_signature(own, chain, species, nets, Ks, c0, xs, rel, j, float(mag)) if own else {}
+                sig = failure_signature(own, chain, species, nets, Ks, c0, xs, rel, j, float(mag), opts) if own else {}
                 ctx.fail("not_conserved", key=k, total=float(t1), initial_total=float(t0), rel_error=rel, x=xs,
                          **dict(sig, **detail))
                 return False
@@ -252,13 +348,13 @@ def build08(M):
     return es
 
 
-def judge_homog(ctx, M, x, chain, own=None, extra=None):
+def judge_homog(ctx, M, x, chain, own=None, extra=None, opts=None):
     """True when the result is genuine."""
     import mpmath
     xs = [float(v) for v in x]
     detail = {"chain": chain, "min_over_max": spread(xs)}
     detail.update(extra or {})
-    if not judge_common(ctx, M.species, x, M.c0, detail, own, chain, M.nets, M.K):
+    if not judge_common(ctx, M.species, x, M.c0, detail, own, chain, M.nets, M.K, opts):
         return False
     conc = dict(zip(M.species, xs))
     for i, net in enumerate(M.nets):
@@ -275,7 +371,7 @@ def judge_homog(ctx, M, x, chain, own=None, extra=None):
             with mpmath.workdps(30):
                 dev = float(abs(mpmath.expm1(lq - mpmath.log(mpmath.mpf(M.K[i])))))
         if dev is None or not dev <= Q_RTOL:
-            sig = failure_signature(own, chain, M.species, M.nets, M.K, M.c0, xs, dev, i)
+            sig = failure_signature(own, chain, M.species, M.nets, M.K, M.c0, xs, dev, i, None, opts)
             ctx.fail("Q_differs_from_K", rxn=G.BASE[M.idx[i]][0], Q_over_K_minus_1=dev, x=xs, **dict(sig, **detail))
             return False
     return True
@@ -489,6 +585,71 @@ def check_series(case, ctx):
     ctx.nontrivial(judged >= 2)
 
 
+
+def check_root_args(case, ctx):
+    """EqSystem.root with its optional arguments: an explicit guess x0 (ndarray in substance order - the only form the
+    pinned tree accepts; a dict or list raises TypeError inside the pre-processors) and/or the formulation / solver
+    options rref_equil, rref_preserv, neqsys_type, tol, method.  None of them changes what a success means: the
+    result is judged against init_concs exactly like a plain solve."""
+    import numpy as np
+    M = G.ModelRootArgs(case)
+    chain = case["chain"]
+    ctx.label("chain:" + chain, "neq=%d" % len(M.idx))
+    for k in sorted(M.opts):
+        ctx.label("opt:%s=%s" % (k, M.opts[k] if k != "tol" else "%.0e" % M.opts[k]))
+    if not M.opts:
+        ctx.label("opt:none")
+    es = build08(M)
+    kw = dict(M.opts)
+    differs = False
+    if M.x0 is not None:
+        kind = M.x0["kind"]
+        ctx.label("x0:" + kind)
+        g = M.guess_state()
+        if kind in ("other_solution", "own_solution"):
+            first = _root(es, g, "default")
+            if not is_err(first) and first[1]["success"] and first[2]:
+                g = dict(zip(M.species, [float(v) for v in first[0]]))
+            else:
+                ctx.label("x0:first_solve_failed_state_itself_used")
+        x0 = np.array([g[sp] for sp in M.species], dtype=float)
+        if not (np.all(np.isfinite(x0)) and np.all(x0 >= 0)):
+            ctx.skip("guess_not_usable")
+            return
+        t0, tg = G.totals(M.c0, M.species), G.totals(g, M.species)
+        a0 = G.abs_totals(M.c0, M.species)
+        differs = any(abs(t0[k] - tg[k]) > 1e-6 * a0[k] for k in t0 if a0[k] > 0)
+        ctx.label("guess_totals_differ" if differs else "guess_totals_equal")
+        if differs:
+            lower = all(tg[k] <= t0[k] for k in t0 if k != 0)
+            ctx.label("guess_holds_less_of_every_element" if lower else "guess_holds_more_of_some_element")
+        kw["x0"] = x0
+    out = _root(es, M.c0, chain, **kw)
+    if is_err(out):
+        if _solver_stack(out) or M.x0 is None:
+            ctx.skip("solver_exception:%s:%s" % (chain, out.type))
+            return
+        raise out.exc
+    x, info, sane = out
+    if not (info["success"] and sane):
+        ctx.skip("no_success:" + chain)
+        return
+    ctx.label("success:" + chain)
+    x = np.asarray(x, dtype=float)
+    if kw.get("neqsys_type") == "conditional_chained":
+        def own():
+            # ConditionalNeqSys(ChainedNeqSys) drops the stages' records; without phase-transfer reactions the default
+            # nesting does the same arithmetic, so its record is used when it reproduces x bit for bit
+            again = _root(es, M.c0, chain, **dict(kw, neqsys_type="chained_conditional"))
+            if is_err(again) or not np.array_equal(np.asarray(again[0], dtype=float), x):
+                return None
+            return _last_stage(again[1])
+    else:
+        own = (lambda: _last_stage(info))
+    ctx.nontrivial(bool(M.opts) or differs)
+    judge_homog(ctx, M, x, chain, own, opts=M.opts)
+
+
 _TOL = {"|Q/K-1|": Q_RTOL, "conservation": "%g*sum|terms|" % CONS_RTOL}
 
 SUBCHECKS = [
@@ -516,4 +677,13 @@ SUBCHECKS = [
              rule="G.c08_series_cases: EqSystem.roots (1 varied substance; chains default, (Log, Lin), (Lin,)) and "
                   "EqSystem.solve(init_concs, varied) with 1-2 varied substances x 2-4 values, keys in and out of "
                   "substance order; every success-and-sane grid point vs its own initial state; result shape"),
+    SubCheck("root_x0", check_root_args, strategy=G.c08_x0_cases(), quick=240, thorough=6000, tolerances=_TOL,
+             rule="G.c08_x0_cases: homogeneous domain (1-3 equilibria), root(init_concs, x0=ndarray) on chains (Lin,), "
+                  "default, (Log, Lin); the guess is init_concs scaled by 10^+-[0.1, 1], a random positive vector, the "
+                  "default-chain solution of another random initial state, or the solution itself; judged against "
+                  "init_concs"),
+    SubCheck("root_options", check_root_args, strategy=G.c08_option_cases(), quick=300, thorough=4000, tolerances=_TOL,
+             rule="G.c08_option_cases: homogeneous domain, root() with rref_equil, rref_preserv, neqsys_type (3), "
+                  "tol (default, 1e-10, 1e-12), method (default, lm), a third of the cases also with a scaled or "
+                  "random x0; same oracle"),
 ]
